@@ -1,11 +1,16 @@
 /-
-C19 — property theorems.
+C19 — property theorems. `P : Prims` is an ARBITRARY pair (key stream, one-time MAC): ChaCha20 and
+Poly1305 are never unfolded; the only hypothesis about them is that tags are 16 bytes long
+(`hmac`), which the concrete instance satisfies (`chachaPoly_tag_length`).
 -/
 import BV.C19.Spec
 import BV.C19.Model
+import BV.C19.Session
+import BV.C19.Lemmas
+import BV.C19.Stream
 import BV.Generated.C19
 namespace BV.C19
-open BV.C19.Spec
+open BV.C19.Spec BV.Aead BV.Hex
 
 /-! ### constants of the compiled tree pinned to the protocol constants -/
 theorem pin_rekeyInterval : Generated.C19.rekeyInterval = REKEY_INTERVAL := by decide
@@ -18,5 +23,154 @@ theorem pin_headerLen : Generated.C19.headerLen = HEADER_LEN := by decide
 theorem pin_tagLen : Generated.C19.chachapoly1305Expansion = TAG_LEN := by decide
 theorem pin_ignoreBit : (2 : Int) ^ Generated.C19.ignoreBitPos.toNat = IGNORE_BIT := by decide
 theorem pin_transportVersionLen : Generated.C19.transportVersionLen = 0 := by decide
+
+/-- the model's constants are the protocol constants -/
+theorem model_constants :
+    scanIterations = MAX_GARBAGE_LEN + 1 ∧ header true = UInt8.ofNat IGNORE_BIT ∧ header false = 0 ∧
+    Aead.tagLen = TAG_LEN := by decide
+
+/-- the hypothesis `hmac` of the theorems below holds for the concrete Poly1305 reference -/
+theorem chachaPoly_tag_length (k m : List UInt8) : (chachaPoly.mac k m).length = 16 := by
+  simp only [chachaPoly, BV.Poly1305.mac, Lemmas.natLE_length]
+
+/-! ### AEAD: open ∘ seal, and soundness by construction -/
+
+theorem aead_open_seal (P : Prims) (hmac : ∀ k m, (P.mac k m).length = 16)
+    (key nonce aad pt : List UInt8) :
+    aeadOpen? P key nonce aad (aeadSeal P key nonce aad pt) = some pt :=
+  Lemmas.open_seal P hmac key nonce aad pt
+
+theorem aead_accepted_is_sealed (P : Prims) (key nonce aad c pt : List UInt8)
+    (h : aeadOpen? P key nonce aad c = some pt) : c = aeadSeal P key nonce aad pt :=
+  Lemmas.open_sound P key nonce aad c pt h
+
+/-! ### stream synchronisation: in-order lossless delivery across any number of rekeys -/
+
+/-- For EVERY list of packets (any sizes below 2^24, any ignore flags, any AADs, any length — hence
+across any number of rekey intervals) that the sender in state `d` turns into the byte string `w`
+ending in state `d'`: a receiver in the same state `d`, reading `w` (followed by anything), gets
+exactly the same packets — contents and ignore flag — in the same order, consumes exactly `w`, and
+ends in the sender's state `d'`. -/
+theorem stream_sync (P : Prims) (hmac : ∀ k m, (P.mac k m).length = 16)
+    (pkts : List Pkt) (d d' : Dir) (w rest : List UInt8) (h : sendAll P d pkts = some (w, d')) :
+    recvSeq P d (w ++ rest) (pkts.map (·.aad)) =
+      some (pkts.map (fun p => (p.ignore, p.contents)), d', rest) :=
+  Lemmas.stream_sync_pkts P hmac pkts d d' w rest h
+
+/-- the same for one packet: `recv (send m) = m` at every position -/
+theorem recv_send (P : Prims) (hmac : ∀ k m, (P.mac k m).length = 16) (d : Dir) (hdr : UInt8)
+    (c aad rest : List UInt8) (hc : c.length < 2 ^ 24) :
+    recvOne P d ((encodePacket P d hdr c aad).1 ++ rest) aad =
+      .packet ((hdr &&& 0x80) != 0) c (encodePacket P d hdr c aad).2 rest :=
+  Lemmas.recvOne_encode P hmac d hdr c aad rest hc
+
+/-- V2ReceivePacket as written in transport.go: any number of decoys (ignore bit) in front of a
+real packet are skipped, the caller's AAD is applied to the first packet on the wire only, the real
+packet's contents are returned, and the receiver's ciphers end in the sender's state. -/
+theorem receive_skips_decoys (P : Prims) (hmac : ∀ k m, (P.mac k m).length = 16)
+    (ds : List Pkt) (p : Pkt) (A : List UInt8) (d d' : Dir) (w rest : List UInt8) (fuel : Nat)
+    (hds : ∀ q ∈ ds, q.ignore = true) (hp : p.ignore = false) (hf : ds.length < fuel)
+    (ha : (ds ++ [p]).map (·.aad) = A :: List.replicate ds.length [])
+    (hs : sendAll P d (ds ++ [p]) = some (w, d')) :
+    recvPacket P fuel d (w ++ rest) A = .ok p.contents d' rest :=
+  Lemmas.recvPacket_skips P hmac ds p A d d' w rest fuel hds hp hf ha hs
+
+/-! ### accepted ⇒ sealed -/
+
+/-- If a receiver in state `d` accepts a packet from ANY byte stream `wire`, then the bytes it
+consumed are exactly the encoding — at this very position `d` of the stream (key, nonce) and under
+this AAD — of the delivered contents with a header carrying the delivered ignore bit, and the
+receiver moves to the state the sender of that encoding moves to. So a modified, reordered,
+replayed or truncated ciphertext, or a wrong AAD, can be accepted only if it IS a valid sealing of
+what is delivered (which an attacker without the key cannot produce if the MAC is unforgeable —
+that last step is an assumption, not proved here). -/
+theorem accepted_is_sealed (P : Prims) (hmac : ∀ k m, (P.mac k m).length = 16) (d d' : Dir)
+    (wire aad c rest : List UInt8) (ign : Bool) (h : recvOne P d wire aad = .packet ign c d' rest) :
+    ∃ hdr : UInt8, wire = (encodePacket P d hdr c aad).1 ++ rest ∧ d' = (encodePacket P d hdr c aad).2 ∧
+      ign = ((hdr &&& 0x80) != 0) ∧ c.length < 2 ^ 24 :=
+  Lemmas.recvOne_sound P hmac d d' wire aad c rest ign h
+
+/-- the same for a whole accepted sequence: the consumed prefix of the stream is the in-order
+concatenation of the encodings of the delivered packets at positions 0,1,2,… -/
+theorem accepted_sequence_is_sealed (P : Prims) (hmac : ∀ k m, (P.mac k m).length = 16)
+    (aads : List (List UInt8)) (d : Dir) (wire : List UInt8) (rs : List (Bool × List UInt8))
+    (d' : Dir) (rest : List UInt8) (h : recvSeq P d wire aads = some (rs, d', rest)) :
+    ∃ raws : List RawPkt, raws.map (·.aad) = aads ∧
+      raws.map (fun p => (ignoreBit p.hdr, p.contents)) = rs ∧
+      wire = (encodeAll P d raws).1 ++ rest ∧ d' = (encodeAll P d raws).2 :=
+  Lemmas.recvSeq_sound P hmac aads d wire rs d' rest h
+
+/-! ### rekey schedule = specification -/
+
+/-- The incremental state machine of chacha.go (counter, key, rekey when the counter reaches a
+multiple of 224) computes the closed form of BIP324: after `n` packets a direction uses the
+`n div 224`-th key of each chain (`Spec.aeadKey`, `Spec.lenKey`), and packet `n` is encrypted under
+nonce LE32(n mod 224) ‖ LE64(n div 224), the length field at key-stream offset 3·(n mod 224)
+under nonce 0 ‖ LE64(n div 224). -/
+theorem rekey_schedule_eq_spec (P : Prims) (kL kP : List UInt8) (pkts : List Pkt) (w : List UInt8)
+    (d : Dir) (h : sendAll P (Dir.init kL kP) pkts = some (w, d)) :
+    d = specDir P kL kP pkts.length ∧
+    (∀ n, fspNonce n = aeadNonce n) ∧ (∀ n, fscNonce n = lenNonce (n / REKEY_INTERVAL)) ∧
+    (∀ n, fspRekeyNonce n = aeadRekeyNonce (n / REKEY_INTERVAL)) := by
+  refine ⟨?_, fun _ => rfl, fun _ => rfl, fun _ => rfl⟩
+  have he := Lemmas.sendAll_eq_encodeAll P pkts _ w d h
+  have h0 : Dir.init kL kP = specDir P kL kP 0 := by
+    simp [Dir.init, specDir, Spec.lenKey, Spec.aeadKey]
+  rw [h0] at he
+  have := Lemmas.encodeAll_specDir P kL kP (pkts.map Pkt.raw) 0
+  rw [he] at this
+  simpa using this
+
+/-- … and a receiver that has accepted `n` packets is in the same closed-form state -/
+theorem receiver_state_eq_spec (P : Prims) (hmac : ∀ k m, (P.mac k m).length = 16)
+    (kL kP : List UInt8) (aads : List (List UInt8)) (wire : List UInt8)
+    (rs : List (Bool × List UInt8)) (d : Dir) (rest : List UInt8)
+    (h : recvSeq P (Dir.init kL kP) wire aads = some (rs, d, rest)) :
+    d = specDir P kL kP aads.length := by
+  obtain ⟨raws, ha, _, _, hd⟩ := Lemmas.recvSeq_sound P hmac aads _ wire rs d rest h
+  have h0 : Dir.init kL kP = specDir P kL kP 0 := by
+    simp [Dir.init, specDir, Spec.lenKey, Spec.aeadKey]
+  rw [h0, Lemmas.encodeAll_specDir] at hd
+  rw [hd, ← ha]
+  simp
+
+/-! ### both endpoints derive the same session -/
+
+/-- symmetry of the key schedule: from the same ECDH secret, the initiator's send keys/terminator
+are the responder's receive keys/terminator and vice versa, and the session ids agree — for ANY
+KDF. -/
+theorem endpoints_agree (K : Kdf) (secret : List UInt8) (magic : Nat) :
+    (mkSession (schedule K secret magic) true).send = (mkSession (schedule K secret magic) false).recv ∧
+    (mkSession (schedule K secret magic) true).recv = (mkSession (schedule K secret magic) false).send ∧
+    (mkSession (schedule K secret magic) true).sendTerm = (mkSession (schedule K secret magic) false).recvTerm ∧
+    (mkSession (schedule K secret magic) true).recvTerm = (mkSession (schedule K secret magic) false).sendTerm ∧
+    (mkSession (schedule K secret magic) true).sessionId = (mkSession (schedule K secret magic) false).sessionId := by
+  simp [mkSession]
+
+/-- both sides compute the same shared secret, given that x-only ECDH is symmetric for the two key
+pairs (hypothesis `hx`: x(a·B) = x(b·A); a group-theoretic fact about secp256k1 that is not proved
+here — it is exercised by the correspondence run on every handshake). -/
+theorem shared_secret_agree (a b : Nat) (ellA ellB : List UInt8)
+    (hx : Ellswift.ecdhXOnly ellB a = Ellswift.ecdhXOnly ellA b) :
+    Ellswift.v2Ecdh a ellB ellA true = Ellswift.v2Ecdh b ellA ellB false := by
+  unfold Ellswift.v2Ecdh
+  rw [hx]
+  cases Ellswift.ecdhXOnly ellA b <;> simp
+
+/-! ### garbage and terminator -/
+
+/-- every garbage length 0 … 4095 is accepted: the scan of CompleteHandshake finds a terminator
+that follows `g ≤ MAX_GARBAGE_LEN` bytes, provided it does not occur earlier in the stream. -/
+theorem garbage_scan_complete (term inp : List UInt8) (g : Nat) (hg : g ≤ MAX_GARBAGE_LEN)
+    (hat : (inp.drop g).take 16 = term)
+    (hno : ∀ i, i < g → (inp.drop i).take 16 ≠ term) (hlen : g + 16 ≤ inp.length) :
+    scanGarbage term inp scanIterations 0 = .ok g :=
+  Lemmas.scanGarbage_finds term inp g hat hno hlen scanIterations 0 (Nat.zero_le _)
+    (by simp only [scanIterations, MAX_GARBAGE_LEN] at *; omega)
+
+/-- hypotheses of the theorems above are satisfiable -/
+example : ∃ P : Prims, ∀ k m, (P.mac k m).length = 16 := ⟨chachaPoly, chachaPoly_tag_length⟩
+
+example : sendAll chachaPoly (Dir.init [] []) [] = some ([], Dir.init [] []) := rfl
 
 end BV.C19
